@@ -195,7 +195,12 @@ impl<'a> MessageParser<'a> {
         }
 
         // Extract field content using the field_extractor module
-        let extract_result = extract_field_content(&self.input[self.position..], tag);
+        // The field must be the next one at the cursor; never search ahead over other content
+        let extract_result = if self.detect_field(tag) {
+            extract_field_content(&self.input[self.position..], tag)
+        } else {
+            None
+        };
 
         #[cfg(feature = "verif-hooks")]
         {
